@@ -659,4 +659,105 @@ theorem run_refines (src : Nat → α) (ops : List Op) : ∀ (s : St α), Inv sr
         · subst e; exact hi'
         · exact ih2 rest hr q hq'
 
+/-! ### what one output receives along a run -/
+
+/-- the frames returned by the `next k` operations of a run (`tr` = the run's result list) -/
+def received {β : Type} (k : Nat) : List Op → List (Ret α × β) → List α
+  | [], _ => []
+  | _ :: _, [] => []
+  | op :: ops, (r, _) :: tr =>
+    match op, r with
+    | .next k', .frame f => if k' = k then f :: received k ops tr else received k ops tr
+    | _, _ => received k ops tr
+
+theorem received_map {β γ : Type} (g : β → γ) (k : Nat) (ops : List Op) (tr : List (Ret α × β)) :
+    received k ops (tr.map fun r => (r.1, g r.2)) = received k ops tr := by
+  induction ops generalizing tr with
+  | nil => simp [received]
+  | cons op ops ih =>
+    cases tr with
+    | nil => simp [received]
+    | cons r tr =>
+      obtain ⟨r1, r2⟩ := r
+      simp only [List.map_cons, received]
+      cases op <;> cases r1 <;> simp [ih]
+
+/-- in the cursor specification: an output with cursor `c` receives `src c, src (c+1), …`, one per
+    `next`; an output that is not live (and whose key cannot be issued again) receives nothing -/
+theorem Abs.received_run (src : Nat → α) (k : Nat) (ops : List Op) :
+    ∀ (a : Abs) (tr : List (Ret α × Abs)), Abs.run src a ops = some tr → k < a.nextKey →
+      a.nextKey + ops.length < usizeMod →
+      (∀ c, a.cur k = some c → received k ops tr = (List.range' c (ops.count (.next k))).map src) ∧
+      (a.cur k = none → received k ops tr = [] ∧ ops.count (.next k) = 0) := by
+  induction ops with
+  | nil => intro a tr h _ _; simp [Abs.run] at h; subst h; simp [received]
+  | cons op ops ih =>
+    intro a tr h hk hn
+    simp only [List.length_cons] at hn
+    simp only [Abs.run] at h
+    cases hst : Abs.step src a op with
+    | none => simp [hst] at h
+    | some ra =>
+      obtain ⟨r, a'⟩ := ra
+      simp only [hst] at h
+      cases hr : Abs.run src a' ops with
+      | none => simp [hr] at h
+      | some rest =>
+        simp only [hr, Option.some.injEq] at h
+        subst h
+        cases op with
+        | send =>
+          simp only [Abs.step, Option.some.injEq, Prod.mk.injEq] at hst
+          obtain ⟨rfl, rfl⟩ := hst
+          have hmod : (a.nextKey + 1) % usizeMod = a.nextKey + 1 := Nat.mod_eq_of_lt (by omega)
+          have hne : k ≠ a.nextKey := by omega
+          obtain ⟨i1, i2⟩ := ih _ rest hr (by simp only [hmod]; omega) (by simp only [hmod]; omega)
+          simp only [hne, if_false] at i1 i2
+          simp only [received, List.count_cons]
+          constructor
+          · intro c hc; simpa using i1 c hc
+          · intro hc; simpa using i2 hc
+        | next k' =>
+          simp only [Abs.step] at hst
+          cases hc' : a.cur k' with
+          | none => simp [hc'] at hst
+          | some c' =>
+            simp only [hc', Option.some.injEq, Prod.mk.injEq] at hst
+            obtain ⟨rfl, rfl⟩ := hst
+            obtain ⟨i1, i2⟩ := ih _ rest hr hk (by simp only; omega)
+            by_cases hkk : k' = k
+            · subst hkk
+              simp only [if_true] at i1 i2
+              simp only [received, if_true, List.count_cons, beq_self_eq_true]
+              constructor
+              · intro c hc
+                rw [hc'] at hc; simp only [Option.some.injEq] at hc; subst hc
+                rw [i1 (c' + 1) rfl, List.range'_succ]; simp
+              · intro hc; rw [hc'] at hc; simp at hc
+            · have hkk' : k ≠ k' := fun e => hkk e.symm
+              simp only [hkk', if_false] at i1 i2
+              have hb : (Op.next k' == Op.next k) = false := by simp [hkk]
+              simp only [received, hkk, if_false, List.count_cons, hb]
+              exact ⟨fun c hc => by simpa using i1 c hc, fun hc => by simpa using i2 hc⟩
+        | drop k' =>
+          simp only [Abs.step] at hst
+          cases hc' : a.cur k' with
+          | none => simp [hc'] at hst
+          | some c' =>
+            simp only [hc', Option.some.injEq, Prod.mk.injEq] at hst
+            obtain ⟨rfl, rfl⟩ := hst
+            obtain ⟨i1, i2⟩ := ih _ rest hr hk (by simp only; omega)
+            have hb : (Op.drop k' == Op.next k) = false := by simp
+            simp only [received, List.count_cons, hb]
+            by_cases hkk : k' = k
+            · subst hkk
+              simp only [if_true] at i2
+              obtain ⟨j1, j2⟩ := i2 trivial
+              constructor
+              · intro c _; simp [j1, j2]
+              · intro hc; rw [hc'] at hc; simp at hc
+            · have hkk' : k ≠ k' := fun e => hkk e.symm
+              simp only [hkk', if_false] at i1 i2
+              exact ⟨fun c hc => by simpa using i1 c hc, fun hc => by simpa using i2 hc⟩
+
 end Dasp.Bus
